@@ -311,8 +311,7 @@ def _matches_char(choice: ChoiceChoice, char: str, case: ChoiceCase) -> bool:
         case ChoiceLiteral(value=val):
             return val in chars
         case ChoiceRange(start, end):
-            low, high = sorted((start, end))
-            return any(low <= ch <= high for ch in chars)
+            return any(start <= ch <= end for ch in chars)
     return True
 
 
@@ -322,7 +321,8 @@ def _optimize_char_class(singles: list[str], ranges: list[tuple[str, str]]) -> s
     for start, end in ranges:
         s_cp, e_cp = ord(start), ord(end)
         if s_cp > e_cp:
-            s_cp, e_cp = e_cp, s_cp
+            # An empty range never matches.
+            continue
         norm_ranges.append((s_cp, e_cp))
 
     # Merge ranges
@@ -346,4 +346,8 @@ def _optimize_char_class(singles: list[str], ranges: list[tuple[str, str]]) -> s
             parts_out.append(re.escape(chr(s)))
         else:
             parts_out.append(f"{re.escape(chr(s))}-{re.escape(chr(e))}")
+    if not parts_out:
+        # Nothing but empty ranges.
+        return "(?!)"
+
     return "[" + "".join(parts_out) + "]"
